@@ -247,6 +247,8 @@ pub fn str_to_dec(lit: &str) -> Result<(i128, isize), ParseDecimalError> {
         return Ok((0, 0));
     }
     let mut coeff = 0_u128;
+    // Remember the most significant digit (needed for overflow detection).
+    let mut first_digit = lit.first().copied();
     // Parse integral digits.
     let n_int_digits = lit.accum_coeff(&mut coeff);
     // Check for radix point and parse fractional digits.
@@ -255,6 +257,9 @@ pub fn str_to_dec(lit: &str) -> Result<(i128, isize), ParseDecimalError> {
         if *c == b'.' {
             // Safety: safe because of condition above
             unsafe { lit.skip_1() };
+            if n_int_digits == 0 {
+                first_digit = lit.first().copied();
+            }
             n_frac_digits = lit.accum_coeff(&mut coeff);
         }
     }
@@ -265,10 +270,13 @@ pub fn str_to_dec(lit: &str) -> Result<(i128, isize), ParseDecimalError> {
     // check for overflow
     // 1. 10^e > i128::MAX for e > 39
     // 2. e = 39 && coeff < 10³⁸ (overflow occured during accumulation)
+    //    or first digit > 1 (value >= 2 * 10³⁸ > i128::MAX, the wrapped coeff
+    //    may look valid)
     // 3. coeff > i128::MAX
     if n_digits > 39
         || n_digits == 39
-            && coeff < 100000000000000000000000000000000000000_u128
+            && (coeff < 100000000000000000000000000000000000000_u128
+                || first_digit != Some(b'1'))
         || coeff > i128::MAX as u128
     {
         return Err(ParseDecimalError::InternalOverflow);
